@@ -410,7 +410,7 @@ def run(res, tier, seed):
     res.notes["quick_subset"] = [key(c) for c in qsub]
     forms = qsub if quick else sup
     # ---- GEN
-    inputs = c05_corpus.make_corpus(rng, 14 if quick else 1200)
+    inputs = c05_corpus.make_corpus(rng, 14 if quick else 2500)
     for i, inp in enumerate(inputs):
         inp["idx"] = i
     # ---- RUN
